@@ -145,12 +145,7 @@ def run_case(res, gname, spec, sources, cell, stored, explore_sched=None):
     except vsched.HarnessError:
         raise
     except Exception as e:
-        tb = e.__traceback__
-        fn = None
-        while tb:
-            fn = tb.tb_frame.f_code.co_name
-            tb = tb.tb_next
-        res.violation(f"raised:{type(e).__name__}:{fn}", f"{type(e).__name__}: {e}"[:300], case)
+        res.violation(ctxrun.exc_fp(e), f"{type(e).__name__}: {e}"[:300], case)
         return
     msg = ctxrun.tiling_violation(chunks)
     if msg:
